@@ -60,6 +60,12 @@ def gen_interface(rnd, name, pool):
         sg = gen_sig(rnd, pool)
         decl['signals'][s] = sg
         members.append(interface.Signal(s, sg))
+    # a method, a signal and a property may share one member name (login1.Session has Lock / Unlock as method and signal)
+    for m in list(decl['methods'])[:2]:
+        if rnd.random() < 0.4:
+            sg = gen_sig(rnd, pool)
+            decl['signals'][m] = sg
+            members.append(interface.Signal(m, sg))
     for k in range(rnd.randrange(0, 7)):
         p = 'P%d' % k
         sg = rnd.choice(pool)
